@@ -14,8 +14,8 @@ RULE = ('lists of 1-6 part transcriptions (classes: true overlapping windows of 
 ASSUMPTIONS = ['the detected overlap is whatever find_best_overlap returned (recorded), the clauses are arithmetic on it',
                'end-to-end leg: the harness run_ocr reads one glyph per 8-px column block, so part transcriptions are exact windows']
 N = {'quick': 3000, 'thorough': 150000}
-CLASSES = ['windows', 'noisy_windows', 'unrelated', 'empties', 'single_chars', 'repetitive', 'end_to_end']
-REQUIRED = ['merges_checked', 'steps_checked', 'zero_overlap_steps', 'positive_overlap_steps', 'disjoint_or_empty_steps', 'e2e_lines', 'e2e_split_lines']
+CLASSES = ['windows', 'noisy_windows', 'unrelated', 'empties', 'single_chars', 'repetitive', 'end_to_end', 'enumeration', 'astral']
+REQUIRED = ['overlap_detections_checked', 'no_logits_runs', 'merges_checked', 'steps_checked', 'zero_overlap_steps', 'positive_overlap_steps', 'disjoint_or_empty_steps', 'e2e_lines', 'e2e_split_lines']
 ALPHA = 'abcdefg '
 
 
@@ -71,12 +71,21 @@ def gen(rng, i, ctx):
         texts = []
         for _ in range(int(rng.integers(1, 5))):
             t = rtext(rng, 1, 60, 'abcdefg' if rng.random() < 0.5 else ALPHA)
-            gaps = [bool(rng.random() < 0.15) for _ in t]   # blank stretches: blocks without a glyph
+            gaps = [int(rng.random() < 0.15) for _ in t]   # blank stretches: blocks without a glyph (number of blocks before the character)
+            if rng.random() < 0.4:
+                gaps[int(rng.integers(0, len(t)))] = int(rng.integers(8, 40))     # a stretch longer than a recognition window: a seam without any overlap
             texts.append((t, gaps))
         return {'cls': cls, 'mlw': mlw, 'lines': texts}
-    text = rtext(rng, 5, 40, 'ab' if cls == 'repetitive' else ALPHA)
-    if cls in ('windows', 'noisy_windows', 'repetitive'):
+    text = rtext(rng, 5, 40, 'ab' if cls == 'repetitive' else (ALPHA if cls != 'astral' else 'ab ' + ASTRAL))
+    if cls == 'enumeration':
+        # nearly periodic text with a long period (a list, a table column): long overlaps whose shorter candidates are almost as good
+        k0 = int(rng.integers(0, 9000))
+        word = str(rng.choice(['item ', 'no. ', 'page ', 'fol. ']))
+        text = ''.join('%s%04d ' % (word, k0 + j) for j in range(int(rng.integers(4, 8))))
+    if cls in ('windows', 'noisy_windows', 'repetitive', 'enumeration', 'astral'):
         w = int(rng.integers(4, 13)); ov = int(rng.integers(1, w)); parts = []; s = 0
+        if cls == 'enumeration':
+            w = int(rng.integers(24, 46)); ov = int(rng.integers(11, min(w, 24)))
         while True:
             parts.append(text[s:s + w])
             if s + w >= len(text) or len(parts) >= 6:
@@ -100,13 +109,39 @@ def describe(case):
     return case
 
 
+ASTRAL = '\U0001D504\U0001F600\U00020BB7'
+
+
+def code(ch):
+    return ord(ch) if ord(ch) < 250 else 250 + ASTRAL.index(ch)
+
+
+def decode(k):
+    return chr(int(k)) if int(k) < 250 else ASTRAL[int(k) - 250]
+
+
+def ref_best_overlaps(prev, part):
+    """all overlap lengths with the minimum character error rate (suffix of prev vs prefix of part), by an independent edit distance;
+    {0} when no length reaches a rate below 1"""
+    from fractions import Fraction
+    from vf.oracles.editdist import ref_lev
+    best, arg = Fraction(1), {0}
+    for i in range(1, min(len(prev), len(part)) + 1):
+        c = Fraction(int(ref_lev(list(prev[-i:]), list(part[:i]))), i)
+        if c < best:
+            best, arg = c, {i}
+        elif c == best and best < 1:
+            arg.add(i)
+    return arg
+
+
 def make_logits(parts, extra_rows):
     """row r of part p has its arg-max at ord(char) (vocabulary 256) and carries (p, r) in two marker columns"""
     out = []
     for p, (t, ex) in enumerate(zip(parts, extra_rows)):
         lg = np.zeros((len(t) + ex, 258), dtype=np.float64)
         for r, ch in enumerate(t):
-            lg[r, ord(ch)] = 5.0
+            lg[r, code(ch)] = 5.0
             lg[r, 256] = p
             lg[r, 257] = r
         for r in range(len(t), len(t) + ex):
@@ -133,6 +168,12 @@ def check_steps(parts, result, overlaps_log, mon, info):
         if o < 0 or o > min(len(prev), len(part)):
             mon.violation('overlap-range', step)
             continue
+        # the detected overlap is a length of minimum character error rate (an independent edit distance; any of several equally good lengths is accepted)
+        if len(prev) <= 80 and len(part) <= 80:
+            mon.count('overlap_detections_checked')
+            best = ref_best_overlaps(prev, part)
+            if o not in best:
+                mon.violation('detected-overlap-has-minimum-error-rate', dict(step, lengths_of_minimum_error_rate=sorted(best)))
         if o == 0 and cur != prev + part:
             mon.violation('no-overlap-concatenated-unchanged', step)
         # independent of what the detector reported: neighbours without a single common character (or an empty one) share no overlap
@@ -181,9 +222,9 @@ def check(case, mon, ctx):
     l = np.asarray(l)
     if l.shape[0] != len(t):
         mon.violation('one-logit-row-per-character', dict(info, overlaps=ovs, result=t, rows=int(l.shape[0])))
-    elif len(t) and ''.join(chr(int(a)) for a in l[:, :256].argmax(axis=1)) != t:
+    elif len(t) and ''.join(decode(a) for a in l[:, :256].argmax(axis=1)) != t:
         mon.violation('logit-rows-match-characters', dict(info, overlaps=ovs, result=t,
-                      rows=''.join(chr(int(a)) for a in l[:, :256].argmax(axis=1))))
+                      rows=''.join(decode(a) for a in l[:, :256].argmax(axis=1))))
 
 
 def check_e2e(case, mon, ctx):
@@ -193,8 +234,7 @@ def check_e2e(case, mon, ctx):
     for t, gaps in case['lines']:
         blocks = []
         for ch, g in zip(t, gaps):
-            if g:
-                blocks.append(0)
+            blocks += [0] * int(g)
             blocks.append(1 + chars.index(ch))
         img = np.zeros((8, 8 * len(blocks), 3), dtype=np.uint8)
         for b, code in enumerate(blocks):
@@ -205,6 +245,18 @@ def check_e2e(case, mon, ctx):
     del eng.calls[:]
     tr, lg, co = eng.process_lines(lines, sparse_logits=False)
     mon.mark_nontrivial()
+    # the text does not depend on whether the caller wants the logits
+    log_keep, calls_keep = list(ctx.log), list(eng.calls)
+    try:
+        tr_nl, lg_nl, co_nl = eng.process_lines(lines, no_logits=True)
+        mon.count('no_logits_runs')
+        if list(tr_nl) != list(tr):
+            k = next(k for k, (x, y) in enumerate(zip(tr_nl, tr)) if x != y)
+            mon.violation('text-independent-of-the-logits-option', {'line': truths[k], 'with_logits': tr[k], 'no_logits': tr_nl[k], 'mlw': case['mlw']})
+    except Exception as e:
+        mon.violation('merge-raises', {'via': 'process_lines(no_logits=True)', 'exception': repr(e)[:200]})
+    ctx.log[:] = log_keep
+    eng.calls[:] = calls_keep
     # group the recorded overlap calls per line is not needed for the clauses below: each line's merge is checked through
     # what the engine saw as its parts (the harness run_ocr logs them) by re-running the merge under the recorder
     for k, (t, truth) in enumerate(zip(tr, truths)):
